@@ -249,6 +249,7 @@ fn gen(rng: &mut Rng, tier: &str) -> Vec<(String, Value)> {
                 class = "history.incomplete-update";
                 add_v2_roa(&mut s, &target, &mut r);
                 let names: Vec<String> = s.spec.ca(&target).unwrap().versions[1].objects.iter().map(|o| o.name.clone()).collect();
+                if names.is_empty() { continue }
                 let n = r.pick(&names).clone();
                 s.object_mut(&target, 1, &n).faults.push(if r.chance(1, 2) { Fault::Missing } else { Fault::HashMismatch });
             }
